@@ -77,10 +77,10 @@ def _ia_jobs(ctx: Ctx, wd, pool) -> dict:
     jobs = {"flags": flags, "n_mc": n_mc,
             "intended": pool.submit(run_tlc, wd, "IdleAccept", render_cfg(
                 constants={"MaxConns": n_mc, "FixClearOnAccept": True, "FixStaleTimer": True},
-                invariants=["TypeOK", "CountSane"] + IA_CLAUSES), coverage=True, cfg_name="IA_intended.cfg")}
+                invariants=["TypeOK", "CountSane"] + IA_CLAUSES), coverage=True, cfg_name="IA_intended.cfg", workers=4)}
     for n in ([2] if quick else [2, 3]):
         jobs[f"graph{n}"] = pool.submit(dump_graph, wd, "IdleAccept", render_cfg(constants={"MaxConns": n, **flags}),
-                                        name=f"ia{n}")
+                                        name=f"ia{n}", workers=4)
     if not quick:
         jobs["shipped"] = pool.submit(run_tlc, wd, "IdleAccept", render_cfg(
             constants={"MaxConns": 2, "FixClearOnAccept": False, "FixStaleTimer": False},
@@ -105,10 +105,10 @@ def _ia_replay(ctx: Ctx, wd, pool, jobs) -> dict:
         elif n == 2:
             key = None
         else:
-            key = lambda s, lab, d: (lab, s["lpc"], s["shutdownReq"], s["connCount"], _fz(s["tst"]), _fz(s["hpc"]))  # noqa: E731
+            key = lambda s, lab, d: (lab, s["lpc"], s["shutdownReq"], s["connCount"], s["timer"], _fz(s["tst"]))  # noqa: E731
         paths = g.edge_cover_paths(ctx.rng, key=key)
         if not quick and n == 2:
-            more, _ = g.all_paths(40, 1500)
+            more, _ = g.all_paths(40, 600)
             paths += more
         for nodes, labs in paths:
             beh = g.path_to_behaviour(nodes, labs)
@@ -121,7 +121,7 @@ def _ia_replay(ctx: Ctx, wd, pool, jobs) -> dict:
                 ctx.drift.append({"spec": "IdleAccept", **res["drift"]})
             if res["errors"]:
                 ctx.drift.append({"spec": "IdleAccept", "thread_errors": res["errors"]})
-    for i in range(80 if quick else 1500):
+    for i in range(80 if quick else 700):
         n = 2 if i % 2 == 0 else 3
         res = IA.run_random(ctx.rng, n, serve_raises=(1,) if i % 5 == 0 else ())
         sched = [f"{e['a']}{e['c'] or e['t'] or ''}{':' + e['acc'] if e['acc'] else ''}" for e in res["trace"]]
@@ -156,7 +156,8 @@ def _ia_finish(ctx: Ctx, jobs, rep) -> None:
                               "schedule": m["schedule"][:tv["matched"] + 1]})
         for clause in mv["bad"]:
             ctx.violation(clause, {"spec": "IdleAccept", "cause": _ia_cause(r["trace"])},
-                          {"schedule": m["schedule"], "source": m["source"], "observable_history": r["mon"]})
+                          {"schedule": m["schedule"], "source": m["source"], "observable_history": r["mon"],
+                           "ops": [[e["a"], e["c"] or e["t"], e["acc"]] for e in r["trace"]]})
     ctx.traces_validated += accepted
     ctx.extra["idle_accept_runs"] = len(runs)
     ctx.extra["idle_accept_traces_accepted"] = accepted
@@ -196,10 +197,10 @@ def _la_jobs(ctx: Ctx, wd, pool) -> dict:
             "intended": pool.submit(run_tlc, wd, "Launcher", render_cfg(
                 constants={"NLaunch": n_mc, "FixUnlinkFirst": True, "InodeReuse": True},
                 invariants=["TypeOK", "LockSane", "NoLaunchFails"] + LA_CLAUSES), coverage=True,
-                cfg_name="LA_intended.cfg")}
+                cfg_name="LA_intended.cfg", workers=4)}
     for n in ([2] if quick else [2, 3]):
         jobs[f"graph{n}"] = pool.submit(dump_graph, wd, "Launcher", render_cfg(
-            constants={"NLaunch": n, "FixUnlinkFirst": cal["FixUnlinkFirst"], "InodeReuse": True}), name=f"la{n}")
+            constants={"NLaunch": n, "FixUnlinkFirst": cal["FixUnlinkFirst"], "InodeReuse": True}), name=f"la{n}", workers=4)
     if not quick:
         jobs["shipped_noreuse"] = pool.submit(run_tlc, wd, "Launcher", render_cfg(
             constants={"NLaunch": 3, "FixUnlinkFirst": False, "InodeReuse": False},
@@ -219,7 +220,7 @@ def _la_replay(ctx: Ctx, wd, pool, jobs) -> dict:
     cal = jobs["cal"]
     runs, metas = [], []
     t0 = time.time()
-    for n, budget in ([(2, 12.0)] if quick else [(2, 60.0), (3, 150.0)]):
+    for n, budget in ([(2, 12.0)] if quick else [(2, 40.0), (3, 80.0)]):
         gr, g = jobs[f"graph{n}"].result()
         ctx.add_tlc(f"Launcher graph NLaunch={n} FixUnlinkFirst={cal['FixUnlinkFirst']}", gr)
         require_ok(gr, "Launcher state graph")
@@ -235,7 +236,7 @@ def _la_replay(ctx: Ctx, wd, pool, jobs) -> dict:
                 ctx.drift.append({"spec": "Launcher", **r["drift"]})
             if r["errors"]:
                 ctx.drift.append({"spec": "Launcher", "thread_errors": r["errors"]})
-    for i in range(80 if quick else 1200):
+    for i in range(80 if quick else 600):
         n = 2 if i % 4 == 0 else 3
         r = LA.run_random(ctx.rng, n)
         runs.append(r)
@@ -246,7 +247,12 @@ def _la_replay(ctx: Ctx, wd, pool, jobs) -> dict:
     ctx.sample({"spec": "Launcher", "schedule": metas[len(metas) // 2]["schedule"],
                 "observable_history": [f"{e['e']}{e['w'] or e['i']}{'' if e['e'] != 'Return' else (':ok' if e['ok'] else ':refused')}"
                                        for e in runs[len(metas) // 2]["mon"]]})
-    return {"runs": runs, "metas": metas,
+    smoke = None
+    if not quick:
+        smoke = LA.real_process_smoke()
+        ctx.case(["LA", "real-processes", 4])
+        ctx.extra["launcher_real_process_smoke"] = smoke["facts"]
+    return {"runs": runs, "metas": metas, "smoke": smoke,
             "mon": pool.submit(tracecheck.validate, ctx, wd, "LauncherMonitor", [{"ev": r["mon"]} for r in runs],
                                spec="MSpec", name="LauncherMonitor", chunk=4000),
             "trace": pool.submit(tracecheck.validate, ctx, wd, "LauncherTrace", [{"ev": r["trace"]} for r in runs],
@@ -254,9 +260,17 @@ def _la_replay(ctx: Ctx, wd, pool, jobs) -> dict:
                                  name="LauncherTrace", chunk=4000)}
 
 
-def _la_finish(ctx: Ctx, jobs, rep) -> None:
+def _la_finish(ctx: Ctx, wd, jobs, rep) -> None:
     runs, metas = rep["runs"], rep["metas"]
     mons, trs = rep["mon"].result(), rep["trace"].result()
+    if rep["smoke"] is not None:       # real launcher calls, real flock, real worker processes, real idle exit
+        sv = tracecheck.validate(ctx, wd, "LauncherMonitor", [{"ev": rep["smoke"]["mon"]}], spec="MSpec",
+                                 name="LauncherMonitor (real processes)")[0]
+        for clause in sv["bad"]:
+            ctx.violation(clause, {"spec": "Launcher", "cause": "real-process-run"},
+                          {"observable_history": rep["smoke"]["mon"], "facts": rep["smoke"]["facts"]})
+        if not sv["bad"]:
+            ctx.traces_validated += 1
     accepted = 0
     for r, m, mv, tv in zip(runs, metas, mons, trs):
         if tv["matched"] == tv["len"]:
@@ -271,7 +285,7 @@ def _la_finish(ctx: Ctx, jobs, rep) -> None:
         for clause in mv["bad"]:
             ctx.violation(clause, {"spec": "Launcher", "cause": _la_cause(r["trace"])},
                           {"schedule": m["schedule"], "source": m["source"], "observable_history": r["mon"],
-                           "launch_results": r["results"]})
+                           "launch_results": r["results"], "n": m["n"], "ops": [[e["a"], e["k"]] for e in r["trace"]]})
     ctx.traces_validated += accepted
     ctx.extra["launcher_runs"] = len(runs)
     ctx.extra["launcher_traces_accepted"] = accepted
@@ -290,8 +304,35 @@ def _la_finish(ctx: Ctx, jobs, rep) -> None:
                 raise MachineryError(f"Launcher vacuity guard {v} was not violated")
 
 
+def _replay(ctx: Ctx, wd, rec: dict) -> None:
+    """./check C33 --replay F: re-execute the recorded operations on the real code and let the monitor judge again."""
+    d, spec = rec["detail"], rec["sig"]["spec"]
+    if spec == "IdleAccept":
+        with IA.IdleWorld() as w:
+            for a, k, acc in d["ops"]:
+                {"Arrive": lambda: w.arrive(), "Loop": lambda: w.loop(acc), "H": lambda: w.handler(k),
+                 "TFire": lambda: w.fire(k), "TRun": lambda: w.timer_run(k)}[a]()
+            w.settle()
+            mon, trace = w.monitor_history(), list(w.trace)
+        v = tracecheck.validate(ctx, wd, "IdleAcceptMonitor", [{"ev": mon}], spec="MSpec")[0]
+        cause = _ia_cause(trace)
+    else:
+        with LA.LaunchWorld(d["n"]) as w:
+            for a, k in d["ops"]:
+                w.step(a, k)
+            mon, trace = list(w.mon), list(w.trace)
+        v = tracecheck.validate(ctx, wd, "LauncherMonitor", [{"ev": mon}], spec="MSpec")[0]
+        cause = _la_cause(trace)
+    ctx.case(["replay", d["ops"]], sample={"replayed": d["schedule"], "clauses_now": v["bad"]})
+    for clause in v["bad"]:
+        ctx.violation(clause, {"spec": spec, "cause": cause}, {**d, "observable_history": mon})
+
+
 def run(ctx: Ctx) -> None:
     wd = ctx.wd.stage("conc")
+    if getattr(ctx, "replay_record", None):
+        _replay(ctx, wd, ctx.replay_record)
+        return
     if not ctx.quick:       # (quick: every module is parsed by the TLC runs below; `./check --setup` runs SANY on all)
         for m in ("IdleAcceptTrace", "IdleAcceptMonitor", "LauncherTrace", "LauncherMonitor"):
             sany(wd, m)
@@ -316,5 +357,5 @@ def run(ctx: Ctx) -> None:
         ia_rep = _ia_replay(ctx, wd, pool, ia)
         la_rep = _la_replay(ctx, wd, pool, la)
         _ia_finish(ctx, ia, ia_rep)
-        _la_finish(ctx, la, la_rep)
+        _la_finish(ctx, wd, la, la_rep)
     ctx.exhaustive = True
